@@ -364,7 +364,14 @@ def main(run):
                     if len(stream) > 1 else []
                 cuts = gen_stream.cuts_to_token(pts, len(stream))
             tl.append("ws %d %s %s" % (r.choice([0, 0, 1]), stream.hex(), cuts))
-    to, tcr = vlib.run_lines_robust(hs, tl, env=asan_env, timeout=1800)
+    # one driver process per 250 streams: the driver keeps a few descriptors per case open and
+    # libcoap's WebSocket close path uses select(), i.e. FD_SET, which is only defined for
+    # descriptors below FD_SETSIZE (1024) - a limit of the library that is not peer-controlled
+    to, tcr = [], []
+    for off in range(0, len(tl), 250):
+        o1, c1 = vlib.run_lines_robust(hs, tl[off:off + 250], env=asan_env, timeout=1800)
+        to.extend(o1)
+        tcr.extend((off + ci, rc, e) for (ci, rc, e) in c1)
     ntcp = 0
     for i, ln in enumerate(tl):
         run.count(ln, True)
